@@ -32,6 +32,11 @@ pub(crate) struct Thread {
     /// Number of times the thread yielded
     pub yield_count: usize,
 
+    /// An `unpark` that arrived while the thread could not consume it (blocked on
+    /// an object, or yielded). It is handed back as `Runnable { unparked: true }`
+    /// when the thread becomes runnable again.
+    pending_unpark: bool,
+
     locals: LocalMap,
 
     /// `tracing` span used to associate diagnostics with the current thread.
@@ -101,6 +106,7 @@ impl Thread {
             dpor_vv: VersionVec::new(),
             last_yield: None,
             yield_count: 0,
+            pending_unpark: false,
             locals: HashMap::new(),
         }
     }
@@ -109,12 +115,36 @@ impl Thread {
         matches!(self.state, State::Runnable { .. })
     }
 
+    /// Makes the thread runnable. A park token the thread already holds (or
+    /// that arrived while it could not run) is kept.
     pub(crate) fn set_runnable(&mut self) {
-        self.state = State::Runnable { unparked: false };
+        let unparked = self.has_unpark_token();
+        self.pending_unpark = false;
+        self.state = State::Runnable { unparked };
     }
 
     pub(crate) fn set_blocked(&mut self, location: Location) {
+        self.pending_unpark = self.has_unpark_token();
         self.state = State::Blocked(location);
+    }
+
+    /// True if an `unpark` has been delivered and not yet consumed by `park`.
+    pub(crate) fn has_unpark_token(&self) -> bool {
+        self.pending_unpark || matches!(self.state, State::Runnable { unparked: true })
+    }
+
+    /// Consumes the park token (see `has_unpark_token`).
+    pub(crate) fn consume_unpark_token(&mut self) {
+        self.pending_unpark = false;
+        if self.is_runnable() {
+            self.state = State::Runnable { unparked: false };
+        }
+    }
+
+    /// True if the thread is blocked in `park` (and not on a lock, channel,
+    /// notify, ...).
+    fn is_parked(&self) -> bool {
+        self.is_blocked() && self.operation.is_none()
     }
 
     pub(crate) fn is_blocked(&self) -> bool {
@@ -126,6 +156,7 @@ impl Thread {
     }
 
     pub(crate) fn set_yield(&mut self) {
+        self.pending_unpark = self.has_unpark_token();
         self.state = State::Yield;
         self.last_yield = Some(self.causality[self.id]);
         self.yield_count += 1;
@@ -155,13 +186,26 @@ impl Thread {
         self.set_unparked();
     }
 
-    /// Unpark a thread's state. If it is already runnable, store the unpark for
-    /// a future call to `park`.
+    /// Unpark a thread's state. Only a thread that is blocked in `park` is
+    /// woken; otherwise the unpark is stored for a future call to `park`.
     fn set_unparked(&mut self) {
-        if self.is_blocked() || self.is_yield() {
-            self.set_runnable();
+        if self.is_parked() {
+            self.pending_unpark = false;
+            self.state = State::Runnable { unparked: false };
         } else if self.is_runnable() {
             self.state = State::Runnable { unparked: true }
+        } else if !self.is_terminated() {
+            // Blocked on an object or yielded: do not wake, keep the token.
+            self.pending_unpark = true;
+        }
+    }
+
+    /// Wake a thread that is blocked waiting for `notifier`'s notification,
+    /// transferring the notifier's causality.
+    pub(crate) fn notify_from(&mut self, notifier: &Thread) {
+        self.causality.join(&notifier.causality);
+        if self.is_blocked() {
+            self.set_runnable();
         }
     }
 }
